@@ -12,7 +12,7 @@ LEVEL = "exploration"
 RULE = (
     "case = timeline of server segments in virtual time (each 1..5 frames: text, binary, fragments of a message possibly "
     "spanning segments, ping, pong; bursts followed by silence; optionally frames in the same segment as the handshake "
-    "response), subset of callbacks set, set of callbacks that raise, transport plain or TLS (records = segments, the "
+    "response), subset of callbacks set (plain functions, functools.partial objects, callable instances or bound methods), set of callbacks that raise, transport plain or TLS (records = segments, the "
     "selector sees undecrypted bytes only), optionally a loss of the connection followed by a re-established one (reconnect "
     "interval set, on_reconnect given or not); optionally on_message echoes every message back through app.send() (a callback calling "
     "back into the API); built-in loop or an external (rel-style) dispatcher. Non-trivial: >= 2 frames in one segment, or a fragmented message, or a "
@@ -99,8 +99,29 @@ def run_case(case, peek=None):
 
     ret = {}
 
+    def shaped(fn):
+        # the application's callbacks need not be plain functions
+        kind = case.get("cb_kind", "function")
+        if kind == "partial":
+            import functools
+
+            return functools.partial(lambda tag, app, *a: fn(app, *a), "tag")
+        if kind == "object":
+            class Handler:
+                def __call__(self, app, *a):
+                    return fn(app, *a)
+
+            return Handler()
+        if kind == "method":
+            class Owner:
+                def handle(self, app, *a):
+                    return fn(app, *a)
+
+            return Owner().handle
+        return fn
+
     def body():
-        kw = {n: mk(n) for n in CBS if n in cbs}
+        kw = {n: shaped(mk(n)) for n in CBS if n in cbs}
         kw["on_close"] = mk("on_close")
         if second is not None and case.get("on_reconnect"):
             kw["on_reconnect"] = mk("on_reconnect")
@@ -230,7 +251,7 @@ def _cls(obs, case):
     nt = multi or frag or bool(case.get("raise_in")) or case.get("secure") or case.get("second") is not None
     obs.cls = ("tls" if case.get("secure") else "plain", f"external_dispatcher:{int(bool(case.get('external')))}", f"segments:{min(len(segs), 6)}", f"multi_frame_segment:{int(multi)}", f"fragmented:{int(frag)}",
                f"raising:{len(case.get('raise_in', []))}", f"hs_segment_frames:{int(any(s[0] == 0 for s in segs))}", f"callbacks:{len(case.get('callbacks', CBS))}", f"reconnected:{int(case.get('second') is not None)}", f"echo:{int(bool(case.get('echo')))}")
-    obs.nt = repr((case.get("secure"), segs, sorted(case.get("callbacks", CBS)), sorted(case.get("raise_in", [])), case.get("second"), case.get("on_reconnect"), case.get("dangling"), case.get("echo"), case.get("external"))) if nt else None
+    obs.nt = repr((case.get("secure"), segs, sorted(case.get("callbacks", CBS)), sorted(case.get("raise_in", [])), case.get("second"), case.get("on_reconnect"), case.get("dangling"), case.get("echo"), case.get("external"), case.get("cb_kind"))) if nt else None
     return obs
 
 
@@ -281,7 +302,7 @@ def cases(draw):
     cbs = draw(st.one_of(st.just(CBS), st.lists(st.sampled_from(CBS), unique=True, min_size=1).map(sorted)))
     raise_in = draw(st.one_of(st.just([]), st.lists(st.sampled_from(["on_open", "on_message", "on_data", "on_ping", "on_pong"]), unique=True, max_size=3).map(sorted)))
     echo = draw(st.integers(0, 2)) == 0
-    c = {"external": draw(st.integers(0, 3)) == 0, "echo": echo, "segments": segs, "callbacks": cbs, "raise_in": [r for r in raise_in if r in cbs], "secure": draw(st.booleans()), "hs_delay": draw(st.sampled_from([0.0, 0.2]))}
+    c = {"external": draw(st.integers(0, 3)) == 0, "cb_kind": draw(st.sampled_from(["function", "function", "partial", "object", "method"])), "echo": echo, "segments": segs, "callbacks": cbs, "raise_in": [r for r in raise_in if r in cbs], "secure": draw(st.booleans()), "hs_delay": draw(st.sampled_from([0.0, 0.2]))}
     if draw(st.integers(0, 3)) == 0:
         # the connection is lost and re-established (reconnect interval set): on_reconnect / on_open must precede the new connection's events
         t2 = 0.0
